@@ -3,6 +3,8 @@
 package c15
 
 import (
+	"sync"
+	"time"
 	"context"
 	"fmt"
 	"log"
@@ -256,7 +258,7 @@ func applyChain(l *zap.Logger, g *rng.R, words *[]string) *zap.Logger {
 
 // Run is the C15 monitor.
 func Run(r *ev.Run) {
-	r.Rule = "case = (front-end method, conversion chain, wrapper depth d with AddCallerSkip(k<=d), extra call-stack depth around the pooled 64-frame capacity, AddStacktrace threshold, caller on/off); the logging call shares its source line with mark(), which captures runtime.Callers of its caller; expected caller = ground-truth frame k, expected stack = ground-truth frames k.. ; distinct = distinct (method, chain, d, k, depth class, threshold) tuples"
+	r.Rule = "case = (front-end method, conversion chain, wrapper depth d with AddCallerSkip(k<=d), extra call-stack depth around the pooled 64-frame capacity, AddStacktrace enabler (static threshold, arbitrary level set, AtomicLevel changed after construction), caller on/off); the logging call shares its source line with mark(), which captures runtime.Callers of its caller; expected caller = ground-truth frame k, expected stack = ground-truth frames k.. ; distinct = distinct (method, chain, d, k, depth class, threshold) tuples"
 	fes := append(append(loggerFEs(), sugarFEs()...), otherFEs()...)
 	covered := map[string]bool{}
 	for _, f := range fes {
@@ -292,8 +294,34 @@ func Run(r *ev.Run) {
 		}
 		callerOn := !g.P(1, 6)
 		stackThr := zapcore.Level(g.Intn(9) - 2) // -2..6: from "always" to "never"
+		// the stack-trace enabler: a static threshold, an arbitrary (also non-monotone) set of
+		// levels, or an AtomicLevel that is changed after the logger was built
+		var stackEn zapcore.LevelEnabler = stackThr
+		stackOn := func(l zapcore.Level) bool { return l >= stackThr }
+		stackDesc := fmt.Sprintf("threshold %v", stackThr)
+		var afterBuild func()
+		switch g.Intn(4) {
+		case 0:
+			var set [8]bool
+			for x := range set {
+				set[x] = g.Bool()
+			}
+			stackEn = zap.LevelEnablerFunc(func(l zapcore.Level) bool { return l >= -1 && l <= 5 && set[l+1] })
+			stackOn = func(l zapcore.Level) bool { return l >= -1 && l <= 5 && set[l+1] }
+			stackDesc = fmt.Sprintf("level set %v (debug..fatal)", set[:7])
+			r.Count("stack_enabler:level-set", 1)
+		case 1:
+			first := zapcore.Level(g.Intn(7) - 1)
+			al := zap.NewAtomicLevelAt(first)
+			stackEn = al
+			afterBuild = func() { al.SetLevel(stackThr) }
+			stackDesc = fmt.Sprintf("AtomicLevel %v at construction, %v when logging", first, stackThr)
+			r.Count("stack_enabler:atomic-level-changed-later", 1)
+		default:
+			r.Count("stack_enabler:static-threshold", 1)
+		}
 		core, logs := observer.New(zapcore.DebugLevel)
-		opts := []zap.Option{zap.WithCaller(callerOn), zap.AddStacktrace(stackThr), zap.WithPanicHook(noopHook{}), zap.WithFatalHook(noopHook{})}
+		opts := []zap.Option{zap.WithCaller(callerOn), zap.AddStacktrace(stackEn), zap.WithPanicHook(noopHook{}), zap.WithFatalHook(noopHook{})}
 		var words []string
 		skipFirst := g.Bool()
 		if skipFirst {
@@ -308,6 +336,9 @@ func Run(r *ev.Run) {
 			} else {
 				l = l.WithOptions(zap.AddCallerSkip(k))
 			}
+		}
+		if afterBuild != nil {
+			afterBuild()
 		}
 		msg := fmt.Sprintf("m%d", i)
 		lastMark = nil
@@ -325,9 +356,9 @@ func Run(r *ev.Run) {
 		r.SetAdd("depth_classes", depthClass)
 		r.Distinct(fmt.Sprintf("%s|%v|%d|%d|%s|%d|%v", f.name, words, d, k, depthClass, stackThr, callerOn))
 		if i < 3 {
-			r.Sample(map[string]any{"method": f.name, "chain": words, "wrappers": d, "caller_skip": k, "extra_depth": extra, "stack_threshold": int(stackThr), "caller_on": callerOn})
+			r.Sample(map[string]any{"method": f.name, "chain": words, "wrappers": d, "caller_skip": k, "extra_depth": extra, "stack_traces": stackDesc, "caller_on": callerOn})
 		}
-		wit := map[string]any{"method": f.name, "level": lvl.String(), "chain": words, "wrappers": d, "caller_skip": k, "extra_depth": extra, "stack_threshold": int(stackThr), "caller_on": callerOn}
+		wit := map[string]any{"method": f.name, "level": lvl.String(), "chain": words, "wrappers": d, "caller_skip": k, "extra_depth": extra, "stack_traces": stackDesc, "caller_on": callerOn}
 		bad := func(class, format string, a ...any) {
 			r.Violate(ev.Violation{Case: id, Class: class, Msg: fmt.Sprintf("%s (chain %v, %d wrappers, skip %d, depth+%d): ", f.name, words, d, k, extra) + fmt.Sprintf(format, a...), Witness: wit})
 		}
@@ -376,9 +407,9 @@ func Run(r *ev.Run) {
 			bad("caller-when-off", "caller annotation is off but the entry has caller %v", e.Caller)
 			continue
 		}
-		wantStack := lvl >= stackThr
+		wantStack := stackOn(lvl)
 		if (e.Stack != "") != wantStack {
-			bad("stack-presence", "stack attached=%v at level %v with threshold %v", e.Stack != "", lvl, stackThr)
+			bad("stack-presence", "stack attached=%v at level %v with stack traces configured as: %s", e.Stack != "", lvl, stackDesc)
 			continue
 		}
 		if wantStack {
@@ -402,6 +433,7 @@ func Run(r *ev.Run) {
 		}
 	}
 	slogCases(r)
+	concurrentCallers(r)
 }
 
 func first2(ls []string) string {
@@ -530,3 +562,95 @@ func slogCases(r *ev.Run) {
 		}
 	}
 }
+
+// ---- concurrent call sites -------------------------------------------------------------------------
+
+//go:noinline
+func concSite0(l *zap.Logger, msg string) { l.Info(msg) }
+
+//go:noinline
+func concSite1(l *zap.Logger, msg string) { l.Warn(msg, zap.Int("k", 1)) }
+
+//go:noinline
+func concSite2(l *zap.Logger, msg string) { l.Sugar().Infow(msg, "k", 2) }
+
+//go:noinline
+func concSite3(l *zap.Logger, msg string) { l.Error(msg) }
+
+var concSites = []func(*zap.Logger, string){concSite0, concSite1, concSite2, concSite3}
+
+// concurrentCallers: goroutines log at the same time from different functions (after caller
+// lookups that failed, and with stack traces on for some levels): every entry must name the
+// function of the goroutine that logged it - stack objects are pooled and shared.
+func concurrentCallers(r *ev.Run) {
+	n := r.N(60, 2000)
+	for i := 0; i < n; i++ {
+		id := fmt.Sprintf("c15/concurrent/%d", i)
+		if !r.Want(id) {
+			continue
+		}
+		g := rng.For(r.Seed, "c15/conc", i)
+		core, logs := observer.New(zapcore.DebugLevel)
+		l := zap.New(core, zap.AddCaller(), zap.AddStacktrace(zapcore.ErrorLevel), zap.ErrorOutput(zapcore.AddSync(discardW{})))
+		// caller lookups that cannot succeed (skip beyond the stack); the entries are still logged
+		bad := l.WithOptions(zap.AddCallerSkip(100000))
+		for k := g.Range(1, 4); k > 0; k-- {
+			bad.Info("caller lookup fails")
+		}
+		ng := g.Range(2, 8)
+		per := g.Range(20, 200)
+		var wg sync.WaitGroup
+		start := make(chan struct{})
+		for gi := 0; gi < ng; gi++ {
+			wg.Add(1)
+			go func(gi int) {
+				defer wg.Done()
+				defer func() { _ = recover() }()
+				<-start
+				site := concSites[gi%len(concSites)]
+				for k := 0; k < per; k++ {
+					site(l, fmt.Sprintf("site%d g%d #%d", gi%len(concSites), gi, k))
+					if k%17 == 3 {
+						bad.Info("caller lookup fails")
+					}
+				}
+			}(gi)
+		}
+		close(start)
+		done := make(chan struct{})
+		go func() { wg.Wait(); close(done) }()
+		select {
+		case <-done:
+		case <-time.After(60 * time.Second):
+			r.Inconclusive(id + ": concurrent logging with caller annotation did not finish within 60s")
+			return
+		}
+		r.Eval(1)
+		r.Distinct(fmt.Sprintf("conc|%d|%d|%d", i, ng, per))
+		cnt := 0
+		for _, e := range logs.All() {
+			if !strings.HasPrefix(e.Message, "site") {
+				continue
+			}
+			cnt++
+			want := fmt.Sprintf("c15.concSite%c", e.Message[4])
+			if !e.Caller.Defined || !strings.HasSuffix(e.Caller.Function, want) {
+				r.Violate(ev.Violation{Case: id, Class: "caller-concurrent", Msg: fmt.Sprintf("%d goroutines logging at once: entry %q was logged by %s but its caller is %s (%s:%d)", ng, e.Message, want, e.Caller.Function, e.Caller.File, e.Caller.Line)})
+				return
+			}
+			if e.Level >= zapcore.ErrorLevel && !strings.Contains(strings.SplitN(e.Stack, "\n", 2)[0], want) {
+				r.Violate(ev.Violation{Case: id, Class: "stack-concurrent", Msg: fmt.Sprintf("%d goroutines logging at once: the stack of entry %q does not start in %s: %q", ng, e.Message, want, first2(strings.Split(e.Stack, "\n")))})
+				return
+			}
+		}
+		if cnt != ng*per {
+			r.Violate(ev.Violation{Case: id, Class: "caller-concurrent", Msg: fmt.Sprintf("%d of %d entries were logged (a log call panicked?)", cnt, ng*per)})
+			return
+		}
+		r.Count("concurrent_caller_entries", int64(cnt))
+	}
+}
+
+type discardW struct{}
+
+func (discardW) Write(p []byte) (int, error) { return len(p), nil }
